@@ -156,7 +156,46 @@ class Raises(object):
         key = (f.qualname, node.id)
         if key not in self._facts_cache:
             self._facts_cache[key] = self._facts_at(f, node)
+        extra = self.__dict__.get("_ev_guard_facts", {}).get(key)
+        if extra:
+            return self._facts_cache[key] + extra
         return self._facts_cache[key]
+
+    def _guard_facts(self, f, node, ev):
+        """facts from the expression level tests under which the event runs (`a if t else b`, `t and a`): same vocabulary as
+        the dominating branch conditions; the names of such a test cannot change between the test and the operand"""
+        gs = ev.get("guards") or ()
+        if not gs:
+            return []
+        ax = self.an.alias_expander(f) if hasattr(self.an, "alias_expander") else None
+        from .astutil import atoms_of as _atoms_of
+        nf = (lambda e: norm(ax.expand(e, node))) if ax is not None else norm
+        out = []
+        for test, pol in gs:
+            if any(isinstance(x, ast.NamedExpr) for x in ast.walk(test)):
+                continue
+            for text, p in _atoms_of(test, pol, nf):
+                out.append((text, p))
+        return out
+
+    def _event_dead_under_entry(self, f, g, node, ev, entry):
+        """the event sits in an operand whose expression level test is refuted by the entry facts"""
+        gs = ev.get("guards") or ()
+        if not gs or not entry:
+            return False
+        ax = self.an.alias_expander(f) if hasattr(self.an, "alias_expander") else None
+        for test, pol in gs:
+            if any(isinstance(x, ast.NamedExpr) for x in ast.walk(test)):
+                continue
+            ttext = norm(ax.expand(test, node)) if ax is not None else norm(test)
+            names = names_in_text(ttext)
+            rel = [(t, v) for (t, v) in entry if names_in_text(t) & names]
+            if not rel or not all(self._fact_still_valid(f, g, g.entry, node, t) for t, _ in rel):
+                continue
+            v = self._tri_eval(ttext, list(rel), {})
+            if v is not None and v != pol:
+                return True
+        return False
 
     def _facts_at(self, f, node):
         """[(text, polarity)] facts that hold whenever `node` executes (dominating branch conditions),
@@ -676,7 +715,23 @@ class Raises(object):
         key = (f.qualname, node.id, id(ev["ast"]), ev["kind"], with_discharge, entry)
         if key in self._ev_cache:
             return self._ev_cache[key]
-        res = self._event_raises(f, node, ev, with_discharge, entry)
+        if entry and self._event_dead_under_entry(f, self.s.cfg(f), node, ev, entry):
+            res = []
+        else:
+            extra = self._guard_facts(f, node, ev)
+            store = self.__dict__.setdefault("_ev_guard_facts", {})
+            fkey = (f.qualname, node.id)
+            prev = store.get(fkey)
+            if extra:
+                store[fkey] = extra
+            try:
+                res = self._event_raises(f, node, ev, with_discharge, entry)
+            finally:
+                if extra:
+                    if prev is None:
+                        store.pop(fkey, None)
+                    else:
+                        store[fkey] = prev
         if not self._busy or self._busy == set([(f.qualname, entry)]):
             self._ev_cache[key] = res
         return res
